@@ -94,8 +94,13 @@ def config_variants(pid: str, shards: list[dict], seed: int, tier: str) -> list[
     if getattr(prop, "OWN_CONFIGS", False) or not shards:  # C20 starts its own interpreters and rotates the options itself
         return []
     kinds: dict[str, list[dict]] = {}
+    only = getattr(prop, "CLONE_KINDS", None)  # a check may name the shard kinds worth repeating (C17: its long histories)
     for s in shards:
-        kinds.setdefault(re.sub(r"[-_]?\d+$", "", str(s.get("name"))), []).append(s)
+        kd = re.sub(r"[-_]?\d+$", "", str(s.get("name")))
+        if only is None or kd in only:
+            kinds.setdefault(kd, []).append(s)
+    if not kinds:
+        return []
     out = []
     for k, (name, cfg) in enumerate(CONFIGS):
         chosen = []
